@@ -143,7 +143,7 @@ pub fn minimise(property: &str, start: Failing) -> (Failing, u64) {
 
     let mut progress = true;
     let mut rounds = 0;
-    while progress && rounds < 5 && m.tests < 2500 {
+    while progress && rounds < 4 && m.tests < 600 {
         progress = false;
         rounds += 1;
 
